@@ -133,17 +133,93 @@ def explore(ctx: Context, contract: Contract, runner: Callable = None) -> Functi
     return res
 
 
+def run_paths(ctx: Context, contract: Contract, fi, prefixes: List[Tuple], budget: int, seconds: float = 20.0):
+    """Worker-side: explore up to `budget` paths depth-first starting from the given decision prefixes.
+    Returns (remaining prefixes, obligations, outcomes, unsupported, errors, paths run)."""
+    worklist: List[Tuple] = list(prefixes)
+    obls: List[Obligation] = []
+    outcomes: Dict[str, int] = {}
+    unsupported: List[str] = []
+    errors: List[str] = []
+    runner = getattr(contract, "runner", None)
+    done = 0
+    t0 = time.time()
+    while worklist and done < budget and (done == 0 or time.time() - t0 < seconds):
+        prefix = worklist.pop()
+        done += 1
+        I = Exec(ctx, prefix, done, worklist)
+        I.verifying = contract.key
+        I.cur_func = fi.qualname
+        outcome = None
+        try:
+            args, kwargs = contract.setup(I)
+            I.entry = dict(heap=dict(I.st.heap), has=dict(I.st.has), cls=I.st.cls, now=I.st.now)
+            try:
+                if runner is not None:
+                    result = runner(I, fi, args, kwargs)
+                else:
+                    result = I.call_function(fi, args, kwargs, None, inline=True)
+                outcome = "return"
+                I.cur_line = fi.node.end_lineno
+                contract.post(I, result)
+            except PyRaise as e:
+                outcome = f"raise:{e.cls_name}"
+                I.cur_line = fi.node.end_lineno
+                contract.post_exc(I, e)
+        except PathEnd:
+            outcome = None
+        except Unsupported as u:
+            unsupported.append(f"{u} [in {I.cur_func}:{I.cur_line}]")
+            outcome = None
+        except z3.Z3Exception as ze:
+            errors.append(f"z3 error: {ze}\n{traceback.format_exc()[-2000:]}")
+        if outcome is not None and I._check() == z3.sat:
+            outcomes[outcome] = outcomes.get(outcome, 0) + 1
+        obls.extend(I.obligations)
+    return worklist, obls, outcomes, unsupported, errors, done
+
+
 # --------------------------------------------------------------------------- discharge
 _OBLS: List[Obligation] = []
 _TIMEOUT_MS = 30000
 
 
+def _model_dict(m, ob):
+    model = {}
+    for k, t in (ob.meta.get("watch") or {}).items():
+        try:
+            model[k] = V.decode(m.eval(t, model_completion=True))
+        except Exception as ex:       # pragma: no cover
+            model[k] = f"<{ex}>"
+    model["__model__"] = str(m)[:4000]
+    return model
+
+
 def _discharge_one(idx):
+    """Two stages: (1) only the quantifier-free part of the path condition (sound: fewer assumptions) -
+    fast and decides most obligations; (2) the full path condition.  When (2) is inconclusive but (1) gave
+    a model, that model is returned as a *candidate* counterexample (verdict stays 'unknown'): only a native
+    replay can turn it into a violation."""
+    from .core import has_quantifier
     ob = _OBLS[idx]
     t0 = time.time()
     g = ob.goal
     if z3.is_true(g):
         return idx, "unsat", 0.0, None, "trivial"
+    quant = [c for c in ob.pc if has_quantifier(c)]
+    candidate = None
+    if quant:
+        s1 = z3.Solver()
+        s1.set("timeout", max(2000, _TIMEOUT_MS // 3))
+        for c in ob.pc:
+            if not has_quantifier(c):
+                s1.add(c)
+        s1.add(z3.Not(g))
+        r1 = s1.check()
+        if r1 == z3.unsat:
+            return idx, "unsat", time.time() - t0, None, "ground part suffices"
+        if r1 == z3.sat:
+            candidate = _model_dict(s1.model(), ob)
     s = z3.Solver()
     s.set("timeout", _TIMEOUT_MS)
     for c in ob.pc:
@@ -152,15 +228,11 @@ def _discharge_one(idx):
     r = s.check()
     model = None
     if r == z3.sat:
-        m = s.model()
-        model = {}
-        for k, t in (ob.meta.get("watch") or {}).items():
-            try:
-                model[k] = V.decode(m.eval(t, model_completion=True))
-            except Exception as ex:       # pragma: no cover
-                model[k] = f"<{ex}>"
-        model["__model__"] = str(m)[:4000]
+        model = _model_dict(s.model(), ob)
     reason = s.reason_unknown() if r == z3.unknown else ""
+    if r == z3.unknown and candidate is not None:
+        candidate["__candidate__"] = True
+        model = candidate
     return idx, str(r), time.time() - t0, model, reason
 
 
